@@ -175,6 +175,9 @@ def ins_part(scratch, tier, seed, v, stats):
         where = f"INS: signal {sig['signum']} {plan['when']} {plan['method']} in iteration {plan['iteration']}"
         h["where"] = where
         replay = {"spec": h["spec"], "codes": h["codes"]}
+        if h["codes"][0] == -9:
+            v.mismatch(f"{where}: harness timeout before the handler returned")
+            continue
         if h["codes"][0] != h["spec"]["exit_code"]:
             v.violation("ins:exit_code", f"{where}: handler exited with {h['codes'][0]}, configured "
                         f"{h['spec']['exit_code']}", replay)
@@ -269,6 +272,9 @@ def main(tier: str) -> int:
             h["where"] = where
             replay = {"spec": h["spec"], "signal": {k: sig[k] for k in ("idx", "file", "lineno", "func", "region", "signum")},
                       "codes": h["codes"]}
+            if h["codes"][0] == -9:
+                v.mismatch(f"{where}: harness timeout before the handler returned")
+                continue
             if h["codes"][0] != h["spec"]["exit_code"]:
                 v.violation("exit_code", f"{where}: handler exited with {h['codes'][0]}, configured {h['spec']['exit_code']}",
                             replay)
